@@ -102,6 +102,40 @@ def write_cfg(path: Path, *, spec: str = "Spec", constants: dict | None = None,
     return path
 
 
+def cfg(ctx, name, consts, **kw) -> Path:
+    """write_cfg with "<-Op" substitutions: constants given as the string "<-Op" become
+    `K <- Op` lines (cfg files have no literal for <<>>, negative numbers, records)."""
+    path = ctx.wd / name
+    plain = {k: v for k, v in consts.items() if not (isinstance(v, str) and v.startswith("<-"))}
+    write_cfg(path, constants=plain, **kw)
+    subs = [f"  {k} <- {v[2:]}" for k, v in consts.items() if isinstance(v, str) and v.startswith("<-")]
+    if subs:
+        txt = path.read_text()
+        if "CONSTANTS" in txt:
+            txt = txt.replace("CONSTANTS\n", "CONSTANTS\n" + "\n".join(subs) + "\n", 1)
+        else:
+            txt = "CONSTANTS\n" + "\n".join(subs) + "\n" + txt
+        path.write_text(txt)
+    return path
+
+
+def tla_expr(v) -> str:
+    """Python value -> TLA+ expression (for wrapper-module definitions)."""
+    if isinstance(v, bool):
+        return "TRUE" if v else "FALSE"
+    if isinstance(v, int):
+        return str(v) if v >= 0 else f"(0 - {-v})"
+    if isinstance(v, str):
+        return '"' + v.replace("\\", "\\\\").replace('"', '\\"') + '"'
+    if isinstance(v, (list, tuple)):
+        return "<<" + ", ".join(tla_expr(x) for x in v) + ">>"
+    if isinstance(v, (set, frozenset)):
+        return "{" + ", ".join(tla_expr(x) for x in sorted(v, key=repr)) + "}"
+    if isinstance(v, dict):
+        return "[" + ", ".join(f"{k} |-> {tla_expr(x)}" for k, x in v.items()) + "]"
+    raise TypeError(type(v))
+
+
 def tla_value(v) -> str:
     """Python value -> TLA+ cfg literal."""
     if isinstance(v, bool):
@@ -113,7 +147,7 @@ def tla_value(v) -> str:
     if isinstance(v, str):
         return '"' + v.replace("\\", "\\\\").replace('"', '\\"') + '"'
     if isinstance(v, (list, tuple)):
-        return "<<" + ", ".join(tla_value(x) for x in v) + ">>"
+        raise TypeError("cfg files have no tuple literal: use tlc.run(defs=...) and '<-Op'")
     if isinstance(v, (set, frozenset)):
         return "{" + ", ".join(tla_value(x) for x in sorted(v, key=repr)) + "}"
     raise TypeError(type(v))
@@ -122,14 +156,22 @@ def tla_value(v) -> str:
 def run(module: str, cfg: Path, *, wd: Path, workers: int | str = 16, env: dict | None = None,
         timeout: int = 1800, coverage: bool = False, simulate: str | None = None,
         depth: int | None = None, seed: int | None = None, dfs: bool = False,
-        extra: list[str] = (), allow_violation: bool = False, heap: str = "8g") -> TLCResult:
+        extra: list[str] = (), allow_violation: bool = False, heap: str = "8g",
+        defs: dict | None = None) -> TLCResult:
     """Run TLC on specs/<module>.tla with the given cfg. Raises MachineryFailure on a crash,
     parse error, or timeout. A violated invariant is reported in result.violated (it is the
     caller's business whether that is a machinery failure, a Dev_* regression or a verdict)."""
     spec = SPECS / f"{module}.tla"
+    if defs:
+        # cfg files have no literal for tuples/records: a wrapper module that EXTENDS the spec
+        # defines them as operators, the cfg substitutes `K <- Op`
+        wname = f"MC_{module}_{re.sub(r'[^A-Za-z0-9_]', '_', cfg.stem)}"
+        spec = wd / f"{wname}.tla"
+        body = "\n".join(f"{k} == {v}" for k, v in defs.items())
+        spec.write_text(f"---- MODULE {wname} ----\nEXTENDS {module}\n{body}\n====\n")
     meta = wd / f"meta_{module}_{cfg.stem}"
     out = wd / f"{module}_{cfg.stem}.out"
-    java = ["java", "-XX:+UseParallelGC", f"-Xmx{heap}"]
+    java = ["java", "-XX:+UseParallelGC", f"-Xmx{heap}", f"-DTLA-Library={SPECS}"]
     if dfs:
         java.append("-Dtlc2.tool.queue.IStateQueue=StateDeque")
     cmd = java + ["-cp", CP, "tlc2.TLC", "-workers", str(workers), "-metadir", str(meta),
